@@ -83,6 +83,11 @@ fn main() {
                         cfg.max_depth = 4;
                         cfg.max_stmts = 6;
                     }
+                    "noisy" => {
+                        cfg.noise_pct = 15;
+                        cfg.allow_print = true;
+                        cfg.allow_mutable_scoped = true;
+                    }
                     "small" => {
                         cfg.max_stanzas = 2;
                         cfg.max_depth = 2;
@@ -143,6 +148,22 @@ fn main() {
             }
             write_ndjson(&args[4], &items);
             println!("{} calls", items.len());
+        }
+        "fuzz" => {
+            // tsgv fuzz <dir> <in.ndjson> <out.ndjson>: load+run+render arbitrary texts; prints "START <id>" before each case
+            exec::silence_panics();
+            let srcs = cases::load_sources(&args[2]);
+            let items = read_ndjson(&args[3]);
+            let mut f = std::io::BufWriter::new(std::fs::File::create(&args[4]).expect("create"));
+            for it in items.iter() {
+                println!("START {}", it["id"].as_str().unwrap_or(""));
+                std::io::stdout().flush().unwrap();
+                let si = (it["src"].as_u64().unwrap_or(1) as usize).clamp(1, srcs.len()) - 1;
+                let r = api::load_and_run(it["text"].as_str().unwrap_or(""), &srcs[si]);
+                writeln!(f, "{}", json!({"id": it["id"], "r": r})).unwrap();
+                f.flush().unwrap();
+            }
+            println!("DONE");
         }
         "retabs" => {
             // tsgv retabs <pool.json> <out.json>: tables of every (regex, subject) of a pool (oracle: regex crate)
